@@ -29,8 +29,9 @@ PRELUDE = PRELUDE + GHOST_IO
 ACCESSORS = r"""
 /* --- the one flat memory array: symbolic-size object, every access asserted in range --- */
 uint32_t *memory;
-static inline uint32_t RD(uint32_t a) { __CPROVER_assert(a < MEMORY_SIZE_WORDS, "hexsim memory index within the simulated memory"); return memory[a]; }
-static inline void WR_(uint32_t a, uint32_t v) { __CPROVER_assert(a < MEMORY_SIZE_WORDS, "hexsim memory store index within the simulated memory"); memory[a] = v; }
+/* std::array<uint32_t, N>::operator[](size_type): the index is a size_t and is not checked */
+static inline uint32_t RD(size_t a) { __CPROVER_assert(a < MEMORY_SIZE_WORDS, "hexsim memory index within the simulated memory"); return memory[a < MEMORY_SIZE_WORDS ? a : 0]; }
+static inline void WR_(size_t a, uint32_t v) { __CPROVER_assert(a < MEMORY_SIZE_WORDS, "hexsim memory store index within the simulated memory"); memory[a < MEMORY_SIZE_WORDS ? a : 0] = v; }
 #define WR(a, v) WR_((a), (v))
 """
 
@@ -190,7 +191,8 @@ static inline void FILE_READ_U32(uint32_t *dst) { if (g_u32_reads == 0) *dst = g
 static inline void FILE_READ_MEM(unsigned nbytes) {
   /* requires of load(): the image the header announces is present in the file and fits the simulated memory */
   __CPROVER_assert(nbytes <= 4u * MEMORY_SIZE_WORDS, "load: image fits the simulated memory");
-  __CPROVER_assert((size_t)nbytes == 4 * g_file_words, "load: copies exactly the announced image");
+  __CPROVER_assert((size_t)nbytes == 4 * (size_t)g_file_header, "load: requests exactly the image the header announces");
+  /* istream::read delivers min(requested, available) bytes: g_file_words = min(header, words present in the file) */
   g_reads_mem++;
 #ifdef HEX_CBMC
   if (g_file_words > 0) __CPROVER_array_replace(memory, g_file_image);
